@@ -3,7 +3,14 @@ from .. import sexp, parsegen, spangen, lexsim, peg
 from .gbase import GProp, pfields, mk_case, run_result
 
 def gen_wrapped(r):
-    k = r.below(12)
+    k = r.below(14)
+    if k == 12:
+        # a sub-parse INSIDE the wrapped parser (sub is a member of the C06 family), consuming something or nothing
+        inner = r.choice(['empty', ['maybe', ['one', 'B']], ['one', 'B'], ['repeat', 0, 'inf', ['one', 'C']], ['cond', 'F', ['one', 'A']]])
+        return r.choice([['both', ['one', 'A'], ['sub', inner]], ['both', ['sub', ['one', 'A']], ['sub', inner]],
+                         ['right', ['maybe', ['one', 'C']], ['both', ['one', 'A'], ['sub', inner]]], ['sub', ['both', ['one', 'A'], inner]]])
+    if k == 13:
+        return ['sub', parsegen.gen_item(r, 1 + r.below(2))]
     if k < 3: return parsegen.gen_item(r, 1 + r.below(3))
     if k == 3: return ['maybe', ['one', r.choice(['A', 'B'])]]
     if k == 4: return ['repeat', 0, 'inf', ['one', r.choice(['A', 'C'])]]
@@ -14,6 +21,40 @@ def gen_wrapped(r):
     if k == 9: return ['both', ['maybe', ['one', 'A']], ['maybe', ['one', 'B']]]
     if k == 10: return ['intersperse', 0, 'inf', ['one', 'A'], ['one', 'Comma']]
     return ['either', ['seq', 'A', 'B'], ['maybe', ['one', 'A']]]
+
+def sub_tail_only(got, want, toks, flt):
+    """True when got and want differ, and only in that captures END later in got, the extra bytes holding nothing but
+    tokens the filter drops (the recorded finding C14-sub-tail-filtered)"""
+    diff = [False]
+    def region_filtered(a, b):
+        inside = [t for t in toks if t['start'][0] >= a and t['end'][0] <= b]
+        covered = sum(t['end'][0] - t['start'][0] for t in inside)
+        return covered == b - a and all(not lexsim.keeps(flt, t['kind']) for t in inside)
+    def go(g, w):
+        if isinstance(w, list) and isinstance(g, list) and w and g and w[0] == g[0] == 'text' and len(w) == 3 and len(g) == 3 and w[1] != 'EMPTY':
+            a, b, a2, b2 = int(g[1]), int(g[2]), int(w[1]), int(w[2])
+            if (a, b) == (a2, b2): return True
+            if a == a2 and b > b2 and region_filtered(b2, b): diff[0] = True; return True
+            return False
+        if isinstance(w, list) and isinstance(g, list) and w and g and w[0] == g[0] == 'spanned' and len(w) == 3 and len(g) == 3 and w[1] != 'EMPTY':
+            (ga, gb), (wa, wb) = g[1].split('~'), w[1].split('~')
+            if not go(g[2], w[2]): return False
+            if (ga, gb) == (wa, wb): return True
+            b, b2 = int(gb.split(':')[0]), int(wb.split(':')[0])
+            if ga == wa and b > b2 and region_filtered(b2, b): diff[0] = True; return True
+            return False
+        if isinstance(w, list) and isinstance(g, list) and len(w) == len(g):
+            return all(go(x, y) for x, y in zip(g, w))
+        return same_capture(g, w)
+    return go(got, want) and diff[0]
+
+def sub_in_capture(g):
+    """a `sub` below a text / spanned node"""
+    def has_sub(x):
+        return isinstance(x, list) and bool(x) and (x[0] == 'sub' or any(has_sub(y) for y in x[1:]))
+    if not isinstance(g, list) or not g: return False
+    if g[0] in ('text', 'spanned'): return has_sub(g[1])
+    return any(sub_in_capture(y) for y in g[1:])
 
 def same_capture(got, want):
     """compare values, treating the reference's EMPTY captures as 'any empty span/text'"""
@@ -31,7 +72,7 @@ def same_capture(got, want):
 class C14(GProp):
     id = 'C14'
     files = ['tephra-combinator/src/misc.rs', 'tephra/src/lexer.rs']
-    rule = ('seeded random captures text(w) / spanned(w) with w from the C06/C07 family including nullable ones (maybe, repeat 0.., '
+    rule = ('seeded random captures text(w) / spanned(w) with w from the C06/C07 family including nullable ones (maybe, repeat 0.., ' 'sub-parses inside w that consume something or nothing, '
             'empty, cond false, seq_count), nested in sequences so that tokens were consumed before the capture and follow after it, '
             'on random texts with filtered whitespace before, between and after the consumed tokens (incl. tabs, line breaks, '
             'multi-byte, wide and zero-display-width tokens as the first captured token; lexers built filter-first then metrics on texts starting with tabs / line breaks); the captured span / byte range is compared with [start of first consumed token, end of last] '
@@ -92,7 +133,18 @@ class C14(GProp):
         if kind != 'ok':
             return [((1,), 'rejected (%s) although the reference accepts with %s' % (sexp.dump(v)[:100], sexp.dump(ref[1])))]
         if not same_capture(v, ref[1]):
-            return [((1,), 'captured %s; tokens consumed give %s (EMPTY = any empty span)' % (sexp.dump(v), sexp.dump(ref[1])))]
+            tag = ''
+            if sub_in_capture(c['g']):
+                toks = lexsim.scan_all(c['text'], c['le'], c['tab'], c['scanner'])
+                if sub_tail_only(v, ref[1], toks, c['filter']):
+                    tag = '[sub-tail-filtered] '
+            return [((1,), tag + 'captured %s; tokens consumed give %s (EMPTY = any empty span)' % (sexp.dump(v), sexp.dump(ref[1])))]
         return []
+
+    def classify(self, ct, f):
+        what = str(f.get('detail', {}).get('what', ''))
+        if f.get('kind') == 'oracle' and what.startswith('[sub-tail-filtered]'):
+            return 'C14-sub-tail-filtered'
+        return None
 
 PROP = C14()
